@@ -266,7 +266,9 @@ def run_matrix_case(a):
             json.dump(cfg_snake, open(os.path.join(app, "my.cfg.json"), "w"))
             argv += opt("-c", "--config", "my.cfg.json")
         elif have_file:
-            json.dump({"productName": "x", "plugins": {"typegen": cfg_camel}}, open(os.path.join(app, "tauri.conf.json"), "w"))
+            # the document is looked for in the working directory and in ./src-tauri (the standard layout), whatever -p says
+            where = os.path.join(app, "src-tauri", "tauri.conf.json") if source == "src-tauri/tauri.conf.json" else os.path.join(app, "tauri.conf.json")
+            json.dump({"productName": "x", "plugins": {"typegen": cfg_camel}}, open(where, "w"))
         if "project" in flags:
             argv += opt("-p", "--project-path", "./proj_flag")
         if "output" in flags:
@@ -557,8 +559,8 @@ def run(tier):
     subsets = [frozenset(c) for n in range(6) for c in itertools.combinations(SETTINGS, n)]
     for flags in subsets:
         for filed in (frozenset(), flags, frozenset(SETTINGS), frozenset(SETTINGS) - flags):
-            for source in ("tauri.conf.json", "-c"):
-                if not filed and source == "-c":
+            for source in ("tauri.conf.json", "-c", "src-tauri/tauri.conf.json"):
+                if not filed and source != "tauri.conf.json":
                     continue
                 mjobs.append((cli, flags, filed, source, base + k, None))
                 k += 1
